@@ -8,7 +8,7 @@ print(f"""You are helping to evaluate a verification tool. Your job: produce ONE
 
 Work ONLY in your own scratch git worktree. Create it with:
     git -C /repo worktree add --detach {wt} HEAD
-and do all edits and experiments inside {wt} (never edit /repo itself, never look at or use anything under /verif). Run python as /venv/bin/python with PYTHONPATH={wt} so that your modified copy of `molli` is the one imported (check `molli.__file__`). The existing test suite is run with:
+and do all edits and experiments inside {wt} (never edit /repo itself, never look at or use anything under /verif). Run python as /venv/bin/python with PYTHONPATH={wt} so that your modified copy of `molli` is the one imported (check `molli.__file__`). A fresh worktree lacks the untracked compiled extension: copy it in first with `cp /repo/molli_xt*.so {wt}/` (it will not appear in your diff). The existing test suite is run with:
     cd {wt} && PYTHONPATH={wt} /venv/bin/python -m pytest -q -p no:cacheprovider --timeout=900 molli_test
 (4 tests fail already on the unmodified tree because a data file is empty: test_conformer_to_lib, test_ensemble_lib, test_load_all, test_loads_all; some are skipped. Your change must not make any additional test fail.)
 
